@@ -24,7 +24,7 @@ Section Sem.
   Notation nxt := (v_nxt v).
 
   (* position behind the matched filters so far *)
-  Definition pos_of (M : list N) : option N := run_all nxt M 0%N.
+  Definition pos_of (M : list N) : option N := run_all nxt M (v_start v).
   Definition lit_test (M : list N) (l : lit) : bool :=
     match pos_of M with
     | Some q => xorb (lit_neg l) (is_some (nxt (lit_el l) q))
@@ -38,7 +38,7 @@ Section Sem.
     else None.
 
   Lemma pos_of_snoc M el : pos_of (M ++ [el]) = match pos_of M with Some q => nxt el q | None => None end.
-  Proof. unfold pos_of. rewrite run_all_app. destruct (run_all nxt M 0%N); [|reflexivity]. cbn. destruct (nxt el n); reflexivity. Qed.
+  Proof. unfold pos_of. rewrite run_all_app. destruct (run_all nxt M (v_start v)); [|reflexivity]. cbn. destruct (nxt el n); reflexivity. Qed.
 
   Lemma run_lit l p :
     run v (lit_expr l) 0 p = if xorb (lit_neg l) (is_some (nxt (lit_el l) p))
@@ -55,8 +55,8 @@ Section Sem.
   Lemma run_then_lit e l M ok :
     readings e = 1%nat ->
     (ok = true -> M <> [] -> pos_of M <> None) ->
-    run v e 0 0%N = enc M ok ->
-    run v (EThen e (lit_expr l)) 0 0%N = enc (matched_after M l) (ok && lit_test M l) /\
+    run v e 0 (v_start v) = enc M ok ->
+    run v (EThen e (lit_expr l)) 0 (v_start v) = enc (matched_after M l) (ok && lit_test M l) /\
     readings (EThen e (lit_expr l)) = 1%nat.
   Proof.
     intros Hr Hpos He. split; [|cbn; rewrite Hr, readings_lit; reflexivity].
@@ -66,8 +66,8 @@ Section Sem.
     - (* nothing matched yet: the literal runs from the start *)
       cbn [pos_of run_all]. rewrite run_lit. unfold pos_of. cbn [run_all].
       destruct l as [s e0|s e0]; cbn [lit_neg lit_el xorb app].
-      + cbn [pos_of run_all]. destruct (nxt e0 0%N); reflexivity.
-      + destruct (nxt e0 0%N); reflexivity.
+      + cbn [pos_of run_all]. destruct (nxt e0 (v_start v)); reflexivity.
+      + destruct (nxt e0 (v_start v)); reflexivity.
     - set (M := m :: M') in *. specialize (Hpos eq_refl ltac:(discriminate)).
       destruct (pos_of M) as [q|] eqn:Ep; [|congruence].
       cbn [fold_right]. rewrite run_lit.
@@ -95,9 +95,9 @@ Section Sem.
   Lemma run_seq rest : forall e M ok,
     readings e = 1%nat ->
     (ok = true -> M <> [] -> pos_of M <> None) ->
-    run v e 0 0%N = enc M ok ->
+    run v e 0 (v_start v) = enc M ok ->
     let '(M', ok') := seq_state M ok rest in
-    run v (fold_left (fun e l => EThen e (lit_expr l)) rest e) 0 0%N = enc M' ok' /\
+    run v (fold_left (fun e l => EThen e (lit_expr l)) rest e) 0 (v_start v) = enc M' ok' /\
     readings (fold_left (fun e l => EThen e (lit_expr l)) rest e) = 1%nat.
   Proof.
     induction rest as [|l r IH]; intros e M ok Hr Hpos He; cbn [seq_state fold_left]; [auto|].
@@ -236,15 +236,15 @@ Lemma eval_matched_runs v d : d_el d <> [] -> eval_data v d = true -> pos_of v (
 Proof.
   unfold eval_data, pos_of, matched. intros Hne H. destruct (d_el d) as [|x els] using rev_ind; [congruence|]. clear IHels.
   rewrite eval_chain_split in H. destruct (d_inv d).
-  - rewrite removelast_snoc. destruct (run_all _ els 0%N); [discriminate|discriminate].
-  - rewrite run_all_app. destruct (run_all _ els 0%N); [|discriminate]. cbn. destruct (v_nxt v x n); [discriminate|discriminate].
+  - rewrite removelast_snoc. destruct (run_all _ els (v_start v)); [discriminate|discriminate].
+  - rewrite run_all_app. destruct (run_all _ els (v_start v)); [|discriminate]. cbn. destruct (v_nxt v x n); [discriminate|discriminate].
 Qed.
 
 Lemma eval_cont v M l :
   eval_data v (mkData (M ++ [lit_el l]) (lit_neg l)) = lit_test v M l.
 Proof.
   unfold eval_data, lit_test, pos_of. cbn [d_el d_inv]. rewrite eval_chain_split.
-  destruct (run_all _ M 0%N); [|reflexivity]. destruct (lit_neg l), (is_some _); reflexivity.
+  destruct (run_all _ M (v_start v)); [|reflexivity]. destruct (lit_neg l), (is_some _); reflexivity.
 Qed.
 
 Lemma then_step_eval v ds M l : seq_inv ds M ->
@@ -260,7 +260,7 @@ Proof.
     + apply H. unfold then_step. apply in_flat_map. exists ad. split; [auto|]. rewrite Ei. left. reflexivity.
     + (* a matched sequence = M: implied by the test having a position *)
       unfold eval_data. rewrite Ei, eval_chain_pos, (si_pos _ _ I ad Ha Ei).
-      unfold lit_test, pos_of in Ht. destruct (run_all (v_nxt v) M 0%N); [reflexivity|discriminate].
+      unfold lit_test, pos_of in Ht. destruct (run_all (v_nxt v) M (v_start v)); [reflexivity|discriminate].
   - intros [H Ht] d' Hd'. unfold then_step in Hd'. apply in_flat_map in Hd' as (ad & Ha & Hd').
     assert (Hc : In d' [mkData (matched ad ++ [lit_el l]) (lit_neg l)] -> matched ad = M -> eval_data v d' = true).
     { intros [<-|[]] Hm. rewrite Hm, eval_cont. exact Ht. }
@@ -316,9 +316,9 @@ Proof.
   intros ok iok. unfold seq_expr.
   set (M0 := matched_after [] first). set (ok0 := lit_test v [] first).
   (* the text as written *)
-  assert (Hrun0 : run v (lit_expr first) 0 0%N = enc v M0 ok0).
+  assert (Hrun0 : run v (lit_expr first) 0 (v_start v) = enc v M0 ok0).
   { rewrite run_lit. unfold enc, M0, ok0, lit_test, matched_after, pos_of. cbn [run_all].
-    destruct first as [s e|s e]; cbn [lit_neg lit_el xorb app run_all]; destruct (v_nxt v e 0%N); reflexivity. }
+    destruct first as [s e|s e]; cbn [lit_neg lit_el xorb app run_all]; destruct (v_nxt v e (v_start v)); reflexivity. }
   assert (Hpos0 : ok0 = true -> M0 <> [] -> pos_of v M0 <> None) by (apply lit_test_pos).
   pose proof (run_seq v rest (lit_expr first) M0 ok0 (readings_lit first) Hpos0 Hrun0) as Hsem.
   (* the normal form *)
